@@ -127,17 +127,18 @@ def own_templates(repo, which="resolver", tier="quick"):
     return obs
 
 
-def own_mutable_defaults(repo, tier="quick", only_modules=None, floor=8):
+def own_mutable_defaults(repo, tier="quick", only_modules=None, floor=20):
     E = effects(repo)
     obs = []
     oid = "OWN.mutable-defaults"
-    n = 0
+    n = n_scanned = 0
     for fi in repo.all_functions():
         if only_modules is None and fi.module.name in SKIP_MODULES:
             continue
         if only_modules is not None and fi.module.name not in only_modules:
             continue
         for p, d in fi.defaults().items():
+            n_scanned += 1
             mutable = isinstance(d, (ast.List, ast.Dict, ast.Set, ast.ListComp, ast.DictComp, ast.SetComp)) or \
                 (isinstance(d, ast.Call) and isinstance(d.func, ast.Name) and d.func.id in MUTABLE_CALLS)
             if not mutable:
@@ -167,6 +168,10 @@ def own_mutable_defaults(repo, tier="quick", only_modules=None, floor=8):
             else:
                 obs.append(ob_ok(oid, fi, construct="default of %s" % p, instance=fi.qualname + ":" + p,
                                  reason="mutable default is only read (no mutating method, store, del, augmented assignment, escape)"))
-    if n < floor:
-        raise AnalysisError("mutable-default scan matched only %d parameters (floor %d)" % (n, floor))
+    # the floor is on what was looked at (parameters with a default value), not on how many of them are mutable objects:
+    # replacing a mutable default by None leaves fewer of them and is not a reason to doubt the scan
+    if n_scanned < floor:
+        raise AnalysisError("mutable-default scan saw only %d parameters with a default value (floor %d)" % (n_scanned, floor))
+    obs.append(ob_ok(oid, None, construct="%d parameters with a default value scanned, %d of them mutable objects" % (n_scanned, n), instance="scan",
+                     reason="every default value of the scanned modules was classified"))
     return obs
